@@ -660,12 +660,9 @@ class LowerToIRVisitor(Visitor.DefaultVisitor):
         ctx.Module.Metadata["functions"] = [
             f.GetType() for f in module.GetFunctions()
         ]
-        ctx.Module.Metadata["types"] = {
-            d.GetName(): d.GetType()
-            for d in itertools.chain(
-                *[gd.GetDeclarations() for gd in module.GetDeclarations()]
-            )
-        }
+        # The types a module exports are its structure types (importers
+        # register them by name), not the types of its global variables
+        ctx.Module.Metadata["types"] = [t.GetType() for t in module.GetTypes()]
 
         for importName in module.GetImports():
             ctx.Module.AddImport(importName)
